@@ -534,6 +534,25 @@ impl Job for BoxcarScript {
                 sim::violation("C08", "bad-columns", format!("side vector: index {k} holds value {:?} with columns {:?}", it.data, it.matcher_columns.iter().map(|c| c.to_string()).collect::<Vec<_>>()));
             }
         }
+        // a third vector whose item type is zero-sized but has drop glue (a permit / guard token)
+        thread_local! { static ZST_DROPS: std::cell::Cell<u32> = const { std::cell::Cell::new(0) }; }
+        struct Token;
+        impl Drop for Token {
+            fn drop(&mut self) {
+                ZST_DROPS.with(|d| d.set(d.get() + 1));
+            }
+        }
+        ZST_DROPS.with(|d| d.set(0));
+        let tokens = RawVec::<Token>::with_capacity(self.capacity.min(1), self.columns);
+        for _ in 0..5 {
+            tokens.push(Token, |_, _| {});
+        }
+        tokens.extend((0..35).map(|_| Token).collect::<Vec<_>>().into_iter(), |_, _| {});
+        drop(tokens);
+        let zd = ZST_DROPS.with(|d| d.get());
+        if zd != 40 {
+            sim::violation("C11", "leak", format!("a vector of 40 zero-sized items with a Drop impl ran {zd} destructors when it was dropped"));
+        }
         let needs_pool = self.threads.iter().flatten().any(|o| matches!(o, BOp::ParSnapshot { .. }));
         let pool = needs_pool.then(|| Arc::new(rayon::ThreadPoolBuilder::new().num_threads(self.pool_threads as usize).build().unwrap()));
         let mut hs = Vec::new();
